@@ -235,7 +235,8 @@ Definition C10_oracle_statement : Prop :=
   good mac t p -> endpoints_ok t p pp = true ->
   all_unexpired now p = true -> all_unexpired now' p = true -> ScmpReturn.src_ip_ok pp = true ->
   ScmpReturn.pos_ok t p ka how = true -> (kc < nhops p)%nat -> ScmpReturn.no_revisit p kc = true ->
-  (ScmpReturn.clean_fault t p pf fa ka kc how && ScmpReturn.alert_req_ok pf trq
+  ((if ScmpReturn.is_alert pf then ScmpReturn.alert_on_path p pf && ScmpReturn.alert_req_ok pf trq
+    else ScmpReturn.clean_fault t p pf fa ka kc how)
    || ScmpReturn.hop_fault pf) = true ->
   ScmpReturn.known_early now p pf = false ->
   let m := ScmpReturn.model_q macq t hosts now now' p pp pf fa tc flow next qoff srt raw in
